@@ -1231,8 +1231,12 @@ func (r *Raft) election() {
 // sendRequestVoteToPeers sends a RequestVoteRPC to all nodes in the cluster,
 // excluding those that are non-voters.
 func (r *Raft) sendRequestVoteToPeers() {
-	// Handle the single node cluster case.
+	// Handle the single node cluster case. There is nobody to ask for a vote,
+	// but leadership must still be taken in a new term with a vote for this node.
 	if r.isSingleServerCluster() {
+		if r.state == PreCandidate {
+			r.becomeCandidate()
+		}
 		r.becomeLeader()
 		return
 	}
